@@ -1,0 +1,22 @@
+//go:build verif
+
+package endorse
+
+import (
+	"context"
+	"io"
+
+	epb "github.com/google/gce-tcb-verifier/proto/endorsement"
+	rpb "github.com/google/gce-tcb-verifier/proto/releases"
+)
+
+// VerifAddEndorsementEntry exposes addEndorsementEntry to the verification harness.
+func VerifAddEndorsementEntry(ctx context.Context, entries []*rpb.VMEndorsementMap_Entry,
+	entry *rpb.VMEndorsementMap_Entry) []*rpb.VMEndorsementMap_Entry {
+	return addEndorsementEntry(ctx, entries, entry)
+}
+
+// VerifMakeEvents exposes makeEvents to the verification harness.
+func VerifMakeEvents(random io.Reader, endorsement *epb.VMLaunchEndorsement) ([]byte, error) {
+	return makeEvents(random, endorsement)
+}
